@@ -79,7 +79,9 @@ class Loader:
             # config files are looked for". So, same as enclosing_dir for
             # tasks.py, but one more level up for tasks/__init__.py...
             module_parent = enclosing_dir
-            if spec.parent:  # it's a package, so we have to go up again
+            # it's a package, so we have to go up again (NOTE: 'spec.parent'
+            # is also non-empty for a plain module whose name contains a dot)
+            if spec.submodule_search_locations is not None:
                 module_parent = module_parent.parent
             # Get the enclosing dir on the path
             enclosing_str = str(enclosing_dir)
